@@ -58,6 +58,11 @@ FORMS = [
       for t in ("int", "uint", "double", "string", "bytes", "bool")],
     *[("bool", f"({{0}} {op} {{1}})", [t, t]) for op in ("==", "!=") for t in ("list<int>", "map", "list<string>")],
     ("bool", "({0} == null)", ["null_type"]),
+    # null as an element, a map value, a macro item and a bound variable inside macro bodies
+    ("bool", "[1, {0}].exists(x, x == null)", ["null_type"]), ("bool", "[null, {0}].all(x, x == null)", ["null_type"]), ("list<int>", "[{0}, null].map(x, 1)", ["int"]),
+    ("bool", "[{0}].map(x, x == null)[0]", ["null_type"]), ("bool", "({{'a': {0}}}.a == null)", ["null_type"]), ("bool", "has({{'a': {0}}}.a)", ["null_type"]),
+    ("bool", "({{'a': null}}['a'] == {0})", ["null_type"]), ("bool", "[1, 2].exists(x, {0} == null && x == 2)", ["null_type"]), ("int", "size([{0}, null])", ["null_type"]),
+    ("bool", "[{0}, 1].filter(x, x == null).size() == 1", ["null_type"]), ("bool", "({0} in [null, 1])", ["null_type"]), ("bool", "[[{0}]].map(x, x[0] == null)[0]", ["null_type"]),
     # logic
     ("bool", "({0} && {1})", ["bool", "bool"]), ("bool", "({0} || {1})", ["bool", "bool"]), ("bool", "(!{0})", ["bool"]),
     *[(t, "({0} ? {1} : {2})", ["bool", t, t]) for t in ("int", "uint", "double", "string", "bool", "list<int>", "bytes")],
